@@ -262,6 +262,25 @@ func (vc *VC) mergeStates(states []*State) *State {
 	for k := range live[0].ghost {
 		gk[k] = true
 	}
+	// call records ($call.*) made on some branches only: the count defaults to 0, arguments/results to an
+	// unconstrained value of the same sort
+	for _, st := range live {
+		for k, v := range st.ghost {
+			if !strings.HasPrefix(k, "$call.") {
+				continue
+			}
+			for _, o := range live {
+				if _, has := o.ghost[k]; !has {
+					if strings.HasSuffix(k, ".n") {
+						o.ghost[k] = IntLit(0)
+					} else {
+						o.ghost[k] = Fresh("nocall", v.Sort)
+					}
+				}
+			}
+			gk[k] = true
+		}
+	}
 	var gks []string
 	for k := range gk {
 		ok := true
